@@ -6,6 +6,7 @@ answers, any parser answers), `rec` is the string re-analysis (any), so every
 statement holds for every configuration, cwd and fuel.
 -/
 import Dippy.Lemmas.Walk
+import Dippy.Lemmas.Flat
 
 namespace Dippy.C03
 open Dippy
@@ -142,13 +143,15 @@ theorem coproc_eq (p : Node) (cwd : String) (r : Bool) : V (.coproc p) cwd r = V
 /-! ### inside one simple command -/
 
 /-- the verdict of the command proper (step 3 of `_analyze_command`): the words after the
-    assignment prefix, judged as a simple command -/
+    assignment prefix, judged as a simple command – as spelled and as bash reads them after quote removal,
+    the stricter of the two -/
 def proper (ws : List Word) (cwd : String) (r : Bool) : Action :=
   let ctx := mkCmdCtx w ws
   if ctx.words.isEmpty then .allow
   else if ctx.base == "[" || ctx.base == "test" then .allow
   else if ctx.baseIdx ≥ ctx.words.length then .allow
-  else (simpleCmd w rec h (ctx.words.length + 1) (ctx.words.drop ctx.baseIdx) cwd r).action
+  else Action.sup (simpleCmd w rec h (ctx.words.length + 1) (ctx.words.drop ctx.baseIdx) cwd r).action
+    (simpleCmd w rec h (ctx.unquoted.length + 1) (ctx.unquoted.drop ctx.baseIdx) cwd r).action
 
 /-- a simple command's verdict is the join of its substitutions (with the injection-risk
     prompt that belongs to a pure `$(…)` argument), its redirections and the command proper -/
@@ -164,7 +167,9 @@ theorem command_eq (ws : List Word) (rs : List Redir) (cwd : String) (r : Bool) 
     · simp [combine_act]
     · split
       · simp [combine_act]
-      · simp [combine_act]
+      · have := S_cmdDecisions w rec h (mkCmdCtx w ws).words (mkCmdCtx w ws).unquoted (mkCmdCtx w ws).baseIdx cwd r
+        unfold S at this
+        simp [combine_act, this]
 
 /-! ### order, repetition, nesting depth -/
 
